@@ -157,7 +157,8 @@ Section KholawProofs.
     destruct (Nat.eqb_spec (length (firstn 32 k)) 32) as [L1|]; cbn [key_err bind Ok]; [|discriminate].
     destruct (Nat.eqb_spec (length (skipn 32 k)) 32) as [L2|]; cbn [key_err bind Ok]; [|discriminate].
     unfold pub_of_priv, mul_base_bytes, mul_base_n, int_decode. rewrite ed_priv_len_32, L1, ed_coord_len_32, Nat.eqb_refl.
-    destruct (_ || _); cbn [bind Ok Err]; [discriminate|]. intros H; inversion H; subst; clear H. cbn.
+    destruct (_ || _); cbn [key_err is_value_error scalarmult_error bind Ok Err]; [discriminate|].
+    intros H; inversion H; subst; clear H. cbn.
     rewrite skipn_length in L2. rewrite firstn_length in L1. repeat split; try lia.
   Qed.
 
